@@ -93,7 +93,7 @@ Section Seq.
   (* ----- circular buffer ----- *)
   Record cb := { cb_vals : list E; cb_start : nat; cb_end : nat; cb_full : bool; cb_size : nat; cb_max : nat }.
   Variable zero : E.
-  Variable is_zero : E -> bool.          (* reflect.DeepEqual(value, zero) in Dequeue (D19, not repaired here) *)
+  Variable is_zero : E -> bool.          (* the zero-value test Dequeue had before repair 0021 (D19); the repaired code: fun _ => false *)
   Definition cb_fresh (mx : nat) : cb :=
     {| cb_vals := repeat zero mx; cb_start := 0; cb_end := 0; cb_full := false; cb_size := 0; cb_max := mx |}.
   Definition cb_calc (mx s e : nat) (f : bool) : nat :=
